@@ -1,6 +1,7 @@
 package main
 
 import (
+	"bytes"
 	"fmt"
 	"go/ast"
 	"go/parser"
@@ -85,7 +86,11 @@ func (cc cgoCase) preambles() []string {
 	return pres
 }
 
-func (cc cgoCase) build() *jen.File {
+func (cc cgoCase) build() *jen.File { return cc.buildWith(true) }
+
+// buildWith(false): the references to C are not part of the File's own code; they are rendered as a fragment with
+// the File (RenderWithFile) before the File itself is rendered.
+func (cc cgoCase) buildWith(qualInBody bool) *jen.File {
 	f := jen.NewFile("p")
 	f.NoFormat = cc.NoFormat
 	if cc.Prefix {
@@ -138,10 +143,13 @@ func (cc cgoCase) build() *jen.File {
 		}
 		f.Anon("a.a/first", "z.z/last")
 	}
-	if cc.QualC {
+	if cc.QualC && qualInBody {
 		body = append(body, jen.Qual("C", "free").Call(jen.Qual("C", "malloc").Call(jen.Lit(1))))
 	}
 	f.Func().Id("m").Params().Block(body...)
+	if cc.QualC && !qualInBody {
+		jen.Qual("C", "free").Call(jen.Qual("C", "malloc").Call(jen.Lit(1))).RenderWithFile(&bytes.Buffer{}, f)
+	}
 	return f
 }
 
@@ -282,15 +290,22 @@ func judgeCgo(src []byte, pres []string, wantC, qualC bool) []string {
 
 func c19Case(r *mon.Run, cc cgoCase, c mon.Case) {
 	desc := fmt.Sprintf("%+v", cc)
-	for _, nf := range []bool{false, true} {
+	for mode := 0; mode < 3; mode++ {
+		nf := mode == 1
+		if mode == 2 && !cc.QualC {
+			continue // the third mode renders the references to C as a fragment with the File first
+		}
 		cc.NoFormat = nf
-		src, fail := renderFile(cc.build())
+		src, fail := renderFile(cc.buildWith(mode != 2))
 		if fail != "" {
 			r.Violate("cgo-render-failure", c, "%s: %s", desc, fail)
 			continue
 		}
 		pres := cc.preambles()
-		probs := judgeCgo(src, pres, cc.QualC || cc.AnonC || len(pres) > 0, cc.QualC)
+		probs := judgeCgo(src, pres, cc.QualC || cc.AnonC || len(pres) > 0, cc.QualC && mode != 2)
+		if mode == 2 {
+			desc = fmt.Sprintf("%+v (references to C rendered with RenderWithFile before the File)", cc)
+		}
 		// the other imports are all there, once each (a "C" special case must not eat its neighbours)
 		if af, err := parser.ParseFile(token.NewFileSet(), "o.go", src, parser.ImportsOnly); err == nil {
 			got := map[string]int{}
@@ -324,7 +339,7 @@ func c19Case(r *mon.Run, cc cgoCase, c mon.Case) {
 
 func runC19(r *mon.Run) {
 	dom := cgoDomain()
-	r.SetRule(fmt.Sprintf("matrix {Qual C, Anon C (before/after the preambles)} x 128 subsets of 7 preamble kinds (one-line, multi-line, raw //, raw /* */, one line with a trailing newline, the first block once more, the empty string) in 2 orders x 10 other-import shapes (none, one std, several, aliased, anonymous, bases c/C, hints that ask for the name C, 14 imports, paths that sort before \"C\") x prefix x 5 hint kinds naming \"C\" (none, ImportName, ImportAlias, dot, ImportNames) = %d combinations, each rendered formatted and NoFormat; enumerated completely in both tiers. non-trivial = the combination involves \"C\" at all", len(dom)))
+	r.SetRule(fmt.Sprintf("matrix {Qual C, Anon C (before/after the preambles)} x 128 subsets of 7 preamble kinds (one-line, multi-line, raw //, raw /* */, one line with a trailing newline, the first block once more, the empty string) in 2 orders x 10 other-import shapes (none, one std, several, aliased, anonymous, bases c/C, hints that ask for the name C, 14 imports, paths that sort before \"C\") x prefix x 5 hint kinds naming \"C\" (none, ImportName, ImportAlias, dot, ImportNames) = %d combinations, each rendered formatted, NoFormat and (when C is referenced) with the references rendered as a fragment with the File beforehand; enumerated completely in both tiers. non-trivial = the combination involves \"C\" at all", len(dom)))
 	c19NegControls(r)
 	r.SetExhaustive(true)
 	mon.Parallel(len(dom), func(i int) { c19Case(r, dom[i], mon.Case{Gen: "matrix", Seed: r.Seed, Index: int64(i)}) })
